@@ -113,7 +113,9 @@ def main(pid, tier, seed, replay=None):
         if not ok:
             broken.append("gotrans: " + msg.strip().split("\n")[-1])
             core.log(msg)
-        gate = core.coq_gate()
+        core.coq_project()
+        cone = core.coq_cone(["Props/%s.vo" % pid] + [f[:-2] + ".vo" for f in mod.MODEL_DEPS]) + ["Extract/" + mod.EXTRACT_V]
+        gate = core.coq_gate(cone)
         obligations.append(("gate: no Admitted/admit/Axiom/Parameter/unguarded checks under coq/", not gate))
         if gate:
             broken.append("gate: " + "; ".join(gate[:5]))
